@@ -1,5 +1,6 @@
 """C05 - barriers (structural clauses) for all six implementations."""
 import copy
+import re
 
 from gsa.cfg import Fn, S, is_call, is_assign, walk, lit
 from gsa import lock as L
@@ -95,9 +96,22 @@ def run(ctx):
                "count reset to %s, not num" % sorted(vals), fn.loc(), "count=num", fnkey=f["key"])
         flip_once(ctx, fn, f, lambda e: e.get("k") == "assign" and e.get("lp") == "lsense", "lsense")
         # releaser is the last arriver: release store guarded by (--count == 0)
-        lastlit = lambda t: t.get("k") == "bin" and t.get("op") == "==" and "--" in S(t) and "count" in S(t)
-        ge = fn.guard_edges(lambda t: "count" in S(t) and "--" in S(t), False) | fn.guard_edges(lastlit, True)
-        bad = fn.guarded_positions(rel, lambda t: "count" in S(t) and "--" in S(t), False)
+        # accepted spellings of "I am the last arriver": the decremented value is 0 (`--count == 0`, `(count -= 1) == 0`,
+        # `count.fetch_sub(1) - 1 == 0`) or the value before the decrement is 1 (`count-- == 1`, `count.fetch_sub(1) == 1`)
+        def newval(t):
+            s = S(t)
+            return "count" in s and (s.startswith("--") or "-= 1" in s or re.search(r"fetch_sub\(1[^)]*\) - 1", s) is not None)
+
+        def oldval(t):
+            s = S(t)
+            return "count" in s and (s.endswith("--") or re.search(r"fetch_sub\(1[^)]*\)$", s) is not None)
+
+        def old_is_one(t):
+            return isinstance(t, dict) and t.get("k") == "bin" and t.get("op") == "==" and \
+                ((oldval(t["l"]) and S(t["r"]) == "1") or (oldval(t["r"]) and S(t["l"]) == "1"))
+        ge = fn.guard_edges(newval, False) | fn.guard_edges(old_is_one, True)
+        hits, _ = fn.search([fn.entry_state()], stop=rel, edge_ok=lambda b, i, s2: (b, i) not in ge)
+        bad = hits
         ctx.ob("C05.reset-before-release", f["qn"], not bad, "sense is released by a thread that is not the last arriver",
                fn.loc(), "last-arriver", fnkey=f["key"])
 
